@@ -439,3 +439,53 @@ Print Assumptions C11_creation_not_refused_after_any_history.
 Theorem C11_insertion_sort_is_a_sorter : sorter_ok isorter.
 Proof. exact isorter_ok. Qed.
 Print Assumptions C11_insertion_sort_is_a_sorter.
+
+(* ---- Lookups while a writer is stopped inside its critical section (fourth seed round) ----
+   cache.ReloadBCache / SortBCache set BBusyState around their work; a reader that finds the flag set waits one second and
+   then searches. [stall v s] = the state s with the flag at v: a writer of another process stopped right after setting it
+   (slower than the reader's wait, or killed there: the flag then stays behind in the shared memory for the next server
+   run), the table and both indexes whole. [st_get_bid after s q] etc. = the lookups as the code does them on a state:
+   [waited (bbusy s) after search] - when the flag is set on entry, one second of waiting (no time in the model; [after] is
+   whatever the flag reads when the second is over), then the search in either case.
+
+   The answers do not depend on the flag, neither on entry nor after the wait: every lookup and both listing walks on
+   [stall v s] are the lookups on the table of s. *)
+Theorem C11_lookups_do_not_depend_on_the_busy_flag : forall v after s,
+  (forall q, st_get_bid after (stall v s) q = get_bid (snames s) (bsn s) q) /\
+  (forall q asc, st_find_by_name after (stall v s) q asc = find_by_name (snames s) q asc) /\
+  (forall q asc, st_autocomplete after (stall v s) q asc = autocomplete (snames s) q asc) /\
+  (forall cls q asc, st_find_by_class after (stall v s) cls q asc = find_by_class (ctitles s) (cnames s) cls q asc) /\
+  (forall k asc, st_page_walk after (stall v s) k asc = page_walk (snames s) k asc) /\
+  (forall k asc, st_page_walk_class after (stall v s) k asc = page_walk_class (ctitles s) (cnames s) k asc).
+Proof. exact stalled_flag_independence. Qed.
+Print Assumptions C11_lookups_do_not_depend_on_the_busy_flag.
+
+(* ... hence after ANY history from the fresh state followed by a writer stopped inside its critical section with the
+   flag at any value v, whatever the flag reads after the reader's wait: the table is still the board file, the by-name
+   index a sorted permutation of it, GetBid of a name in any letter case is the bid of a board with that name (0 iff
+   none), FindBoardIdxByName the exact entry or the scan. (What a writer stopped in the MIDDLE of its work leaves - a
+   half-written table - is outside this statement and outside the property: there is no board table to scan then.) *)
+Theorem C11_lookups_under_a_stalled_writer : forall srt ops s v after,
+  sorter_ok srt -> Forall op_ok ops -> run_hist srt ops fresh = Some s ->
+  let s' := stall v s in
+  bbusy s' = v /\ btbl s' = firstn (Z.to_nat MAXB) (file_recs s') /\
+  (forall q, bytes_ok q = true -> exists b, st_get_bid after s' q = Ok b /\
+     ((1 <= b <= lenZ (tnames s') /\ cstrcasecmp (boardid q) (boardid (nth (Z.to_nat (b - 1)) (tnames s') [])) = 0) \/
+      (b = 0 /\ forall j, 0 <= j < lenZ (tnames s') -> cstrcasecmp (boardid q) (boardid (nth (Z.to_nat j) (tnames s') [])) <> 0))) /\
+  (forall q asc, bytes_ok q = true -> exists r, st_find_by_name after s' q asc = Ok r /\
+     ((1 <= r <= lenZ (snames s') /\ cmp_name (snames s') q (r - 1) = 0) \/ scan (cmp_name (snames s') q) (lenZ (snames s')) asc = Ok r)) /\
+  Permutation.Permutation (tnames s') (snames s') /\ sorted_by less_name (snames s') = true.
+Proof. exact stalled_lookups. Qed.
+Print Assumptions C11_lookups_under_a_stalled_writer.
+
+(* ... and by class, under the blank fifth title byte *)
+Theorem C11_lookups_by_class_under_a_stalled_writer : forall srt ops s v after,
+  sorter_ok srt -> Forall op_ok ops -> run_hist srt ops fresh = Some s ->
+  Forall (fun r => nth 4 (rec_title5 r) 0 = 32 \/ nth 4 (rec_title5 r) 0 = 0) (btbl s) ->
+  let s' := stall v s in
+  forall cls q asc, bytes_ok cls = true -> bytes_ok q = true ->
+  exists r, st_find_by_class after s' cls q asc = Ok r /\
+    ((1 <= r <= lenZ (cnames s') /\ cmp_class (ctitles s') (cnames s') cls q (r - 1) = 0) \/
+     scan (cmp_class (ctitles s') (cnames s') cls q) (lenZ (cnames s')) asc = Ok r).
+Proof. exact stalled_lookups_class. Qed.
+Print Assumptions C11_lookups_by_class_under_a_stalled_writer.
